@@ -310,3 +310,61 @@ func fileReadParamAvoiding(p *core.Prog, fn *ssa.Function, depth int, avoid map[
 	})
 	return res
 }
+
+// RuleKPathIdentity — the path a parsed file carries (File.Path, the key by
+// which the batches of concurrently parsed files are put into a fixed order,
+// and the name error messages show) is the path the file was read from: in
+// lib/syntax, a function that reads a file and creates a parser for its text
+// hands the parser the very value it handed to os.ReadFile. A shortened or
+// otherwise derived name makes two different files compare equal.
+func RuleKPathIdentity(c *core.Ctx) {
+	const rule = "K-path-identity"
+	p := c.P
+	newParser := p.Func(pkgParser, "New")
+	if newParser == nil {
+		c.Anchor(rule, "parser.New")
+		return
+	}
+	n := 0
+	for _, fn := range p.SrcFuncs() {
+		if core.PkgPathOf(fn) != pkgSyntax {
+			continue
+		}
+		var read, mk []*ssa.Call
+		core.EachInstr(fn, func(ins ssa.Instruction) {
+			call, ok := ins.(*ssa.Call)
+			if !ok {
+				return
+			}
+			callee := call.Call.StaticCallee()
+			if callee == nil {
+				return
+			}
+			if callee == newParser {
+				mk = append(mk, call)
+			}
+			if callee.Pkg != nil && callee.Pkg.Pkg.Path() == "os" && (callee.Name() == "ReadFile" || callee.Name() == "Open") {
+				read = append(read, call)
+			}
+		})
+		if len(read) == 0 || len(mk) == 0 {
+			continue
+		}
+		for _, m := range mk {
+			n++
+			key := core.FuncName(fn) + ":the parser is given the path that was read"
+			ok := false
+			for _, r := range read {
+				if len(m.Call.Args) >= 2 && p.SameExpr(core.Strip(m.Call.Args[1]), core.Strip(r.Call.Args[0])) {
+					ok = true
+				}
+			}
+			if ok {
+				c.Ob(rule, key, m.Pos(), core.FuncName(fn), core.Discharged, "parser.New receives the argument of the file read")
+			} else {
+				c.Ob(rule, key, m.Pos(), core.FuncName(fn), core.Violated, "the parser is created with "+describeValue(p, m.Call.Args[1])+" as the file's path, which is not the path the file was read from: files in different directories can carry the same path, and the order in which their directives are merged then depends on the schedule")
+			}
+		}
+	}
+	c.Floor(rule, 1)
+}
